@@ -15,6 +15,13 @@ CLAIMS['C33'] = dict(engine='pyvc (E1) + rtc (E3)', category='proof',
          'deltaE_trial == realised energy change is a run-time contract (B) over exhaustive small tables and catalogue samplers.',
     note='Assumes the table invariant established by the constructor (checked at run time only), the encoder model of CPython/numpy primitives, reals for energies.')
 
+CLAIMS['C35'] = dict(engine='pyvc (E1) + rtc (E3)', category='proof',
+    technique='contract-based deductive verification: the jitclass methods are proved against the same ghost specification functions as the reference sampler (functional form of the coupling relation), z3; real numba objects vs reference as run-time relational contracts',
+    text='start/E/update/transitions of the compiled sampler are proved for all tables and occupations to compute the same specification '
+         '(counts, energy, barriers with +inf for forbidden jumps, set/index bookkeeping) as the reference sampler is proved to in C33. '
+         'deltaE_trial, MCmoves (batch == Metropolis move by move), copy and parameter extraction are run-time relational contracts (B) on real numba objects.',
+    note='Assumes numba runs the class body with Python semantics (decorator dropped), table invariants from the constructor (run-time checked), reals for energies.')
+
 NOT_APPLICABLE = {
     'C01': 'no contract within reach: the postcondition "equals the infinite-dilution limit of the exact Markov chain, to integration accuracy" needs an independent infinite-lattice solver as oracle (differential testing, a different technique) and no SMT/CAS obligation expresses a quadrature error; the discrete mechanisms it rests on are claimed in C24-C26, its invariances in C04, its sum rules in C06',
     'C05': 'a 2-safety statement about the Loewner order of two outputs (Rayleigh monotonicity): a variational theorem of detailed balance, not an invariant of any loop or a postcondition of one call; its only executable form is a numeric comparison of two runs (testing, not contract checking)',
